@@ -337,6 +337,7 @@ func checkC12(w *World, r *Report) {
 	r.floor("call sites of the macro choke point", n4, 1)
 	checkParserDoesNotEvaluate(w, r)
 	checkImportsRenderLibrary(w, r)
+	checkChainWalkBounds(w, r, "R12.8")
 }
 
 // macroArgsOrigin: "" if unknown; else a description of an accepted origin.
